@@ -26,6 +26,38 @@ Theorem C04_fragment_roundtrip :
   forall i : instr, wf_instr i = true -> p_program Repaired (print_instr i) = Ok [i] [].
 Proof. exact single_rt. Qed.
 
+(** CALL built through the API (immediates are arbitrary complex numbers, printed by
+    [format_complex]): outside the open findings [call-immediate-sign] and
+    [call-immediate-then-i] the printed tokens parse back to the call. *)
+Theorem C04_call_roundtrip :
+  forall (name : ident) (args : list xarg) (rest : list tok),
+    wf_xcall args = true -> line_end rest ->
+    p_instruction Repaired (print_xcall name args ++ rest)
+    = Ok (ICall name (map xarg_parsed args)) rest.
+Proof. exact xcall_rt. Qed.
+
+(** ... and both classes are real: a negative immediate, a two-part immediate, and a real
+    immediate followed by an argument spelled [i] print to tokens that do not parse back. *)
+Theorem C04_call_immediate_sign_refuted :
+  exists a b : xarg,
+    call_immediate_sign a = true /\ call_immediate_sign b = true /\
+    wf_xarg a = true /\ wf_xarg b = true /\
+    p_program Repaired (print_xcall (IdName 0) [a]) = Err /\
+    p_program Repaired (print_xcall (IdName 0) [b]) = Err.
+Proof.
+  exists (XImm {| re_neg := true; re_abs := VInt 1; im_neg := false; im_abs := VInt 0 |}),
+         (XImm {| re_neg := false; re_abs := VInt 1; im_neg := false; im_abs := VInt 2 |}).
+  vm_compute. repeat split.
+Qed.
+
+Theorem C04_call_immediate_then_i_refuted :
+  exists args : list callarg,
+    call_immediate_then_i args = true /\ forallb wf_callarg args = true /\
+    (p_program Repaired (print_instr (ICall (IdName 0) args)) <> Ok [ICall (IdName 0) args] []).
+Proof.
+  exists [CAImm false (VInt 2); CAId (IdRes RI)]. vm_compute. repeat split; discriminate.
+Qed.
+
 (** The instance checker: a case with code 0 has: error iff placeholder, the error kind the
     model predicts, a debug serialization that returned, and — without placeholders — an
     equivalent re-parse. *)
